@@ -224,6 +224,33 @@ def check_2d(ctx, s1, p1, s2, p2, rng, stats):
                     ctx.violation({"kind": "value-2d", "entry": ep.split("(")[0], "der": [d1, d2], "path": "cu" if b1.cubic_uniform else "general"},
                                   "%s (der %d,%d) differs from the exact tensor-product value by %g; spaces %s x %s" % (ep, d1, d2, err, s1.key(), s2.key()),
                                   {"spaces": [s1.key(), s2.key()], "coeffs": c.tolist(), "der": [d1, d2]})
+    # the point-wise 2-D kernels (x[i], y[i]) -> z[i], which no class method reaches: called directly, output array with stale contents
+    from pygyro.splines import cubic_uniform_spline_eval_funcs as cuk
+    n_ = min(len(x1), len(x2))
+    pa = np.array([x1[(3 * k) % len(x1)] for k in range(n_)])
+    pb = np.array([x2[(5 * k + 1) % len(x2)] for k in range(n_)])
+    qa = [min(max(so.to_int_coord(x, 0.5, 0.25), Fr(s1.br[0])), Fr(s1.br[-1])) for x in pa]
+    qb = [min(max(so.to_int_coord(x, -1.0, 2.0), Fr(s2.br[0])), Fr(s2.br[-1])) for x in pb]
+    kern = cuk.cu_eval_spline_2d_vector if b1.cubic_uniform else nu.nu_eval_spline_2d_vector
+    for d1 in (0, 1):
+        for d2 in (0, 1):
+            if (d1 and s1.p == 1) or (d2 and s2.p == 1):
+                continue
+            A1 = np.array([[float(s1.basis(i, x, d1)) for i in range(s1.nb)] for x in qa]) * (1 / 0.25) ** d1
+            A2 = np.array([[float(s2.basis(j, x, d2)) for j in range(s2.nb)] for x in qb]) * (1 / 2.0) ** d2
+            want = np.einsum("ki,ij,kj->k", A1, c, A2)
+            z = np.full(n_, -7.5)
+            try:
+                kern(pa.copy(), pb.copy(), np.array(b1.knots, dtype=float), b1.degree, np.array(b2.knots, dtype=float), b2.degree, c.copy(), z, d1, d2)
+                err = float(np.max(np.abs(z - want)))
+            except Exception as ex:
+                err = float("inf")
+                z = "%s: %s" % (type(ex).__name__, ex)
+            stats["evals"] += n_
+            if not err <= 1e-9 * max(1.0, float(np.max(np.abs(c)))) * 40:
+                ctx.violation({"kind": "value-2d", "entry": kern.__name__, "der": [d1, d2], "path": "cu" if b1.cubic_uniform else "general"},
+                              "%s (der %d,%d) differs from the exact tensor-product value by %s (%s); spaces %s x %s" % (kern.__name__, d1, d2, err, str(z)[:120], s1.key(), s2.key()),
+                              {"spaces": [s1.key(), s2.key()], "der": [d1, d2]})
     # tensor-grid entry points with degenerate / unsorted second arguments (a single x2 value, x2 inside one cell, shuffled x2):
     # every grid entry must be the value at its own (x1, x2), whatever was evaluated before it
     xa = np.array(x1)
